@@ -7,6 +7,12 @@ REPO = os.environ.get("VERIF_REPO", "/repo")
 WORK = os.path.join(ROOT, ".work")
 DRIVER = os.path.join(LEAN, ".lake", "build", "bin", "driver")
 CORR = os.path.join(HARNESS, "bin", "corr")
+CORR26 = os.path.join(HARNESS, "bin", "corr26")  # same package built with go1.26: streams that need the fake clock of testing/synctest
+BUBBLE_STREAMS = {"ket"}
+
+
+def corr_bin(stream):
+    return CORR26 if stream in BUBBLE_STREAMS else CORR
 
 ALLOWED_AXIOMS = {"propext", "Quot.sound", "Classical.choice"}
 FORBIDDEN = re.compile(r"\bsorry\b|\badmit\b|^axiom\s|native_decide|bv_decide|implemented_by|\bunsafe\s|maxHeartbeats 0")
@@ -49,7 +55,7 @@ class Lock:
 
 # ---------------------------------------------------------------- build steps
 
-def build_harness():
+def build_harness(need26=True):
     """go build the harness against /repo's working tree with the verif hooks enabled."""
     with Lock("go"):
         shutil.copyfile(os.path.join(REPO, "go.sum"), os.path.join(HARNESS, "go.sum"))
@@ -61,6 +67,8 @@ def build_harness():
             sh([os.path.join(HARNESS, "evilssh_src", "gen.sh")], cwd=HARNESS, env=GOENV, timeout=300)
         rc, out = sh(["go", "build", "-tags", "verif", "-o", os.path.join(HARNESS, "bin") + "/", "./cmd/..."],
                      cwd=HARNESS, env=GOENV, timeout=900)
+        if rc == 0 and need26:
+            rc, out = sh(["go1.26", "build", "-tags", "verif", "-o", CORR26, "./cmd/corr"], cwd=HARNESS, env=GOENV, timeout=1800)
     return rc == 0, out
 
 
@@ -172,7 +180,7 @@ def run_stream(stream, seed, n, tier, tag, extra=None):
     for p in (ops, stats):
         if os.path.exists(p):
             os.remove(p)
-    cmd = [CORR, stream, "-seed", str(seed), "-n", str(n), "-tier", tier, "-out", ops, "-stats", stats] + (extra or [])
+    cmd = [corr_bin(stream), stream, "-seed", str(seed), "-n", str(n), "-tier", tier, "-out", ops, "-stats", stats] + (extra or [])
     rc, out = sh(cmd, cwd=HARNESS, env=GOENV, timeout=7200)
     if rc != 0 or not os.path.exists(stats):
         return {"stream": stream, "error": "harness exited %d: %s" % (rc, out[-2000:]), "ops": ops}
@@ -193,7 +201,7 @@ def replay_ops(stream, lines, tag):
         for l in lines:
             f.write(l + "\n")
     ops = os.path.join(WORK, "%s.%s.replay.ops" % (tag, stream))
-    rc, out = sh([CORR, stream, "-replay", src, "-out", ops], cwd=HARNESS, env=GOENV, timeout=1800)
+    rc, out = sh([corr_bin(stream), stream, "-replay", src, "-out", ops], cwd=HARNESS, env=GOENV, timeout=1800)
     if rc != 0:
         return None, ["harness replay failed: " + out[-1000:]], ops
     res, mism, dout = run_driver(stream, ops)
@@ -202,7 +210,7 @@ def replay_ops(stream, lines, tag):
 
 def run_oracle(stream, seed, n, tier, tag, infile=None):
     """Property oracle on the implementation alone. Lines starting with ORACLE-FAIL are property failures."""
-    cmd = [CORR, stream, "-mode", "oracle", "-seed", str(seed), "-n", str(n), "-tier", tier]
+    cmd = [corr_bin(stream), stream, "-mode", "oracle", "-seed", str(seed), "-n", str(n), "-tier", tier]
     if infile:
         cmd += ["-replay", infile]
     rc, out = sh(cmd, cwd=HARNESS, env=GOENV, timeout=3600)
@@ -297,7 +305,8 @@ def main(argv):
         return do_replay(prop, cfg, args.replay, tag)
 
     # 1. harness build (against /repo working tree, hooks on)
-    ok, out = build_harness()
+    uses = {s_["name"] for s_ in cfg.get("streams", [])} | set(cfg.get("oracles", []))
+    ok, out = build_harness(need26=bool(uses & BUBBLE_STREAMS))
     if not ok:
         failures.append({"kind": "tie", "stream": "-", "signature": "harness-build",
                          "detail": "the harness no longer builds against /repo with -tags verif:\n" + out[-3000:]})
@@ -444,7 +453,7 @@ def main(argv):
     oracle_stats = []
     if ok:
         for os_ in cfg.get("oracles", []):
-            on = cfg.get("oracle_n", {}).get(tier, 4000 if tier == "quick" else 100000)
+            on = cfg.get("oracle_n_by", {}).get(os_, cfg.get("oracle_n", {})).get(tier, 4000 if tier == "quick" else 100000)
             of, ncases, oout = run_oracle(os_, seed, on, tier, tag, None)
             oracle_stats.append({"oracle": os_, "cases": ncases, "fails": len(of)})
             if ncases == 0:
